@@ -444,6 +444,12 @@ def run(res, tier):
     # marks are placed by pattern matching (NodeCreated) and removed by traversal (Cleanup, RemoveParameter): the traversal's literal-lookup fast path must name the same nodes
     from .C05 import clause_lookup_rules
     clause_lookup_rules(res, fx, 'TEARDOWN-PAIR')
+    # a subscription that is taken out of the table takes its marks off the nodes on every path (C04's pairing rule, removal side): Cleanup() finds marks only through _subscriptions,
+    # so a mark whose subscription is gone outlives the session
+    from .C04 import subscribe_pair_rule
+    subscribe_pair_rule(res, fx, rule='UNSUBSCRIBE-PAIR', only='Remove')
+    from . import srs_shared as _SH5
+    _SH5.marks_always_rule(res, fx, 'MARKS-ALWAYS')
     res.explanation = ('Static decision of the ownership structure of the reflect session: %d DoTraversal sites classified from the callbacks\' own code, every mutating/collecting traversal is rooted at '
                        '*_sessionDir(); the receivers of all direct DataNode mutator calls are traced (reaching definitions, GetChild/GetParent/InsertOrderedChild algebra, callback and container provenance, '
                        'one-level interprocedural for helper parameters) to the own subtree; subscriber-mark edits use the own session id; kick/ban forwarding is privilege-guarded; privilege bits are '
